@@ -16,7 +16,8 @@ Abs(j) ==
   [idx |-> j.idx, kv |-> ToSet(j.kv), tombs |-> ToSet(j.tombs),
    sess |-> {[s EXCEPT !.checks = ToSet(@)] : s \in ToSet(j.sess)},
    schk |-> ToSet(j.schk), nodes |-> ToSet(j.nodes), svcs |-> ToSet(j.svcs),
-   chks |-> ToSet(j.chks), pq |-> ToSet(j.pq), coords |-> ToSet(j.coords), tix |-> j.tix]
+   chks |-> ToSet(j.chks), pq |-> ToSet(j.pq), coords |-> ToSet(j.coords), tix |-> j.tix,
+   lds |-> IF "lds" \in DOMAIN j THEN ToSet(j.lds) ELSE {}, delayed |-> IF "delayed" \in DOMAIN j THEN ToSet(j.delayed) ELSE {}]
 
 AbsCmd(c) == IF c.t = "sess" /\ c.op = "create" THEN [c EXCEPT !.checks = ToSet(@)] ELSE c
 
@@ -86,12 +87,21 @@ Verdict(i) ==
       pre  == Pre(i)
       post == Abs(e.post)
       c    == AbsCmd(e.cmd)
-      r    == ApplyAt(pre, c.idx, c)
+      endpoint == "level" \in DOMAIN e /\ e.level = "endpoint"
+      \* keys whose lock-delay window ends within the observer's clock uncertainty: either outcome of a lock is allowed
+      edge == IF "edge" \in DOMAIN e THEN ToSet(e.edge) ELSE {}
+      onEdge == endpoint /\ DelayedLocks([pre EXCEPT !.delayed = edge], c) # {}
+      delayedLock == endpoint /\ DelayedLocks(pre, c) # {}
+      r    == IF endpoint /\ ~onEdge THEN EndpointApply(pre, c.idx, c) ELSE ApplyAt(pre, c.idx, c)
       istxn == c.t = "txn"
       first == "pre" \in DOMAIN e
       faulted == "fault" \in DOMAIN e.cmd /\ e.cmd.fault = "yes"
   IN
      (IF faulted THEN FaultJudge(pre, post, r, e.res, e.facts, istxn)
+      ELSE IF onEdge THEN {}
+      \* a lock refused because of the lock delay is judged under a name of its own (no listed property speaks of it)
+      ELSE IF delayedLock THEN F("delay-enforced", IF istxn THEN ~e.res.ok /\ ToSet(e.res.errs) = r.res.errs /\ KVView(pre, post) /\ SessView(pre, post)
+                                                   ELSE ResOK(r.res, e.res) /\ KVView(pre, post) /\ SessView(pre, post))
       ELSE IF istxn THEN TxnJudge(pre, post, r, e.res, e.facts)
       ELSE   F("res", ResOK(r.res, e.res))
         \cup F("kv-state", KVView(r.st, post))
@@ -110,6 +120,20 @@ Verdict(i) ==
   \cup F("CreateIndexStable", CreateIndexStable(pre, post, c.idx))
   \cup F("ModifyIndexRule", ModifyIndexRule(pre, post, c.idx))
   \cup (IF "reads" \in DOMAIN e THEN ReadsJudge(post, e.reads) ELSE {})
+  \* the lock-delay windows move as the specification says (only when the trace observes them): windows opened by this step
+  \* are open afterwards, no other window opens, sessions carrying a delay are exactly the specification's
+  \* (a command whose commit was made to fail must open none: part of fault-atomic / txn-atomic below)
+  \cup (IF "delayed" \in DOMAIN e.post /\ ~faulted
+        THEN LET exp == ApplyAt(pre, c.idx, c).st
+                 ok == IF istxn /\ ~e.res.ok THEN post.delayed \subseteq pre.delayed /\ post.lds = pre.lds
+                       ELSE /\ (exp.delayed \ pre.delayed) \subseteq post.delayed
+                            /\ post.delayed \subseteq exp.delayed
+                            /\ (onEdge \/ delayedLock \/ post.lds = exp.lds)
+             IN F(IF istxn /\ ~e.res.ok THEN "txn-atomic" ELSE "delay-state", ok)
+        ELSE {})
+  \cup (IF "delayed" \in DOMAIN e.post /\ faulted
+        THEN F(IF istxn THEN "txn-fault-atomic" ELSE "fault-atomic", post.delayed \subseteq pre.delayed /\ post.lds = pre.lds)
+        ELSE {})
 
 Init == l = 1
 Next == /\ l <= Len(Trace)
